@@ -432,6 +432,26 @@ func (r *run) step(st h.Step) map[string]interface{} {
 		r.reap.left = map[string]bool{}
 		r.reap.mu.Unlock()
 		q = r.n.Drain()
+	case "expire":
+		var names []string
+		gone := map[string]bool{}
+		for _, x := range st.Ints("s") {
+			names = append(names, r.names[x])
+			gone[r.names[x]] = true
+		}
+		r.n.Serf.VerifAgeIntents(names, 72*time.Hour) // RecentIntentTimeout is 24h here
+		deadline := time.Now().Add(1 * time.Second)
+		for time.Now().Before(deadline) { // the 3ms reaper's reapIntents pass
+			left := false
+			for _, in := range r.n.Serf.VerifDump().Intents {
+				left = left || gone[in.Name]
+			}
+			if !left {
+				break
+			}
+			time.Sleep(time.Millisecond)
+		}
+		q = r.n.Drain()
 	default:
 		h.Die("unknown action %q", st.A())
 	}
